@@ -104,3 +104,56 @@ Proof.
   destruct ph; [|lia]. destruct sl; [lia|]. destruct ib; [|cbn in Ho; lia]. destruct tk; [|cbn in Ho; lia].
   cbn in *. rewrite !app_nil_r in *. split; assumption.
 Qed.
+
+(* ---- eventual answer, under the assumptions built into the labels: the awaits inside
+   apply_metadata_update and inside a use_keyspace task terminate (LFinishApply / LTaskDone are
+   always enabled), and the environment makes no further requests meanwhile ---- *)
+
+(* every run of worker/task steps is at most [owed] long ... *)
+Lemma worker_run_bounded ls : forall s s', forallb is_worker_label ls = true -> run wstep s ls = Some s' ->
+  (List.length ls + owed s' <= owed s)%nat.
+Proof.
+  induction ls as [|lb ls IH]; intros s s' Hw Hr; cbn [run] in Hr.
+  - injection Hr as <-. cbn. lia.
+  - cbn [forallb] in Hw. apply andb_true_iff in Hw as [Hw1 Hw2].
+    destruct (wstep s lb) as [s1|] eqn:E; [|discriminate].
+    pose proof (worker_step_decreases _ _ _ Hw1 E). specialize (IH _ _ Hw2 Hr). cbn [List.length]. lia.
+Qed.
+
+(* ... and there is one that answers everything that was requested *)
+Lemma worker_drain_exists n : forall s, (owed s <= n)%nat ->
+  exists ls s', forallb is_worker_label ls = true /\ run wstep s ls = Some s' /\ owed s' = O.
+Proof.
+  induction n as [|n IH]; intros s Ho.
+  - exists [], s. split; [reflexivity|]. split; [reflexivity|lia].
+  - destruct (Nat.eq_dec (owed s) O) as [E|E].
+    + exists [], s. split; [reflexivity|]. split; [reflexivity|exact E].
+    + destruct (worker_enabled s ltac:(lia)) as (lb & s1 & Hl & Hs).
+      pose proof (worker_step_decreases _ _ _ Hl Hs).
+      destruct (IH s1 ltac:(lia)) as (ls & s' & Hw & Hr & Hz).
+      exists (lb :: ls), s'. split; [cbn; rewrite Hl, Hw; reflexivity|]. split; [|exact Hz].
+      cbn [run]. rewrite Hs. exact Hr.
+Qed.
+
+Lemma loop_eventually s : reachable wstep w_init s ->
+  exists ls s', forallb is_worker_label ls = true /\ run wstep s ls = Some s' /\ (List.length ls <= owed s)%nat /\
+    Permutation (w_use_answered s') (w_use_requested s) /\ w_refresh_answered s' = w_refresh_requested s.
+Proof.
+  intros Hr. destruct (worker_drain_exists (owed s) s (Nat.le_refl _)) as (ls & s' & Hw & Hrun & Hz).
+  exists ls, s'. split; [exact Hw|]. split; [exact Hrun|].
+  pose proof (worker_run_bounded ls s s' Hw Hrun) as Hb. split; [lia|].
+  destruct (all_answered s' (reachable_run _ _ wstep _ _ _ _ Hr Hrun) Hz) as [A B].
+  (* worker steps make no requests: the requested lists are those of s *)
+  assert (G : forall ls s s', forallb is_worker_label ls = true -> run wstep s ls = Some s' ->
+              w_use_requested s' = w_use_requested s /\ w_refresh_requested s' = w_refresh_requested s).
+  { clear. induction ls as [|lb ls IH]; intros s s' Hw Hr; cbn [run] in Hr.
+    - injection Hr as <-. split; reflexivity.
+    - cbn [forallb] in Hw. apply andb_true_iff in Hw as [Hw1 Hw2].
+      destruct (wstep s lb) as [s1|] eqn:E; [|discriminate]. destruct (IH _ _ Hw2 Hr) as [I1 I2]. rewrite I1, I2.
+      destruct s as [ib sl ph tk uk ver pub ur ua ra rr]. destruct lb as [id|o| | | |id]; cbn in Hw1; try discriminate; cbn in E.
+      + destruct ph; try discriminate. destruct ib; try discriminate. injection E as <-. split; reflexivity.
+      + destruct ph; try discriminate. destruct sl; try discriminate. injection E as <-. split; reflexivity.
+      + destruct ph; try discriminate. injection E as <-. split; reflexivity.
+      + destruct (remove_first id tk); try discriminate. injection E as <-. split; reflexivity. }
+  destruct (G ls s s' Hw Hrun) as [G1 G2]. rewrite <- G1, <- G2. split; assumption.
+Qed.
